@@ -555,6 +555,7 @@ type GhostVar struct {
 	Pkg  string
 	Name string
 	Type string
+	Log  bool // bookkeeping ghost ("ghost log"): writing it is never a frame violation (it records events, e.g. pool releases)
 }
 
 type Axiom struct {
@@ -699,8 +700,8 @@ func (ss *SpecSet) LoadSpecFile(path, pkgPath string, trustedFile bool) error {
 					return fmt.Errorf("%s: bad ghost field", pos)
 				}
 				ss.GhostF = append(ss.GhostF, GhostField{Pkg: pkgPath, Struct: strings.TrimPrefix(recv[0].Type, "*"), Name: tail[0], Type: strings.Join(tail[1:], " ")})
-			} else if len(f) >= 3 && f[0] == "var" {
-				ss.GhostV[f[1]] = &GhostVar{Pkg: pkgPath, Name: f[1], Type: strings.Join(f[2:], " ")}
+			} else if len(f) >= 3 && (f[0] == "var" || f[0] == "log") {
+				ss.GhostV[f[1]] = &GhostVar{Pkg: pkgPath, Name: f[1], Type: strings.Join(f[2:], " "), Log: f[0] == "log"}
 			} else {
 				return fmt.Errorf("%s: bad ghost declaration", pos)
 			}
